@@ -154,15 +154,21 @@ MutPre(f, rc, mut) ==
   LET st == FinalSt(f, St0, rc) IN
   /\ WellFormed(f, rc)
   /\ CASE mut.kind = "surplus" -> ~st.bare /\ Len(PosTexts(rc)) = NPosMax(f)             \* every argument slot is taken
-       [] mut.kind = "unknown" -> ~st.sep /\ ~HasOpt(f, ZZ)
+       [] mut.kind \in {"unknown", "unknownval"} -> ~st.sep /\ ~HasOpt(f, ZZ)
+       \* one dash too many in front of a declared long name: the name "-long" is not declared
+       [] mut.kind = "overdash" -> ~st.sep /\ mut.j \in 1..Len(f.opts)
+       [] mut.kind = "unkshort" -> ~st.sep /\ \A j \in 1..Len(f.opts) : f.opts[j].short # "Q"
        [] mut.kind = "flagvalue" -> ~st.sep /\ mut.j \in 1..Len(f.opts) /\ f.opts[mut.j].mode = "none"
        [] mut.kind = "stripvalue" -> ~st.sep /\ mut.j \in 1..Len(f.opts) /\ f.opts[mut.j].mode \in {"req", "multi"}
        [] mut.kind = "dropreq" -> LastIsPos(rc) /\ Len(PosTexts(rc)) = NRequired(f)          \* the last required argument goes
 MutLine(f, rc, mut) ==
   CASE mut.kind = "surplus" -> Render(f, rc) \o <<ZZ>>
     [] mut.kind = "unknown" -> Render(f, rc) \o <<DD \o ZZ>>
+    [] mut.kind = "unknownval" -> Render(f, rc) \o <<DD \o ZZ \o <<"=", "v">>>>
+    [] mut.kind = "overdash" -> Render(f, rc) \o <<<<"-">> \o LongT(f.opts[mut.j])>>
+    [] mut.kind = "unkshort" -> Render(f, rc) \o <<<<"-", "Q">>>>
     [] mut.kind = "flagvalue" -> Render(f, rc) \o <<LongT(f.opts[mut.j]) \o <<"=", "v">>>>
     [] mut.kind = "stripvalue" -> Render(f, rc) \o <<LongT(f.opts[mut.j])>>
     [] mut.kind = "dropreq" -> Render(f, SubSeq(rc, 1, Len(rc) - 1))
-MutExpect(mut) == IF mut.kind = "unknown" THEN "NoSuchOption" ELSE "CannotParse"
+MutExpect(mut) == IF mut.kind \in {"unknown", "unknownval", "overdash", "unkshort"} THEN "NoSuchOption" ELSE "CannotParse"
 =============================================================================
